@@ -34,7 +34,7 @@ def kind_a(report, tier, seed):
     report.guarded("format level mapping", format_levels.run, report, 3 if tier == "quick" else 4)
     from contracts import tensor_method
 
-    report.guarded("TensorMethod.__call__ output allocation", tensor_method.run, report, ("output-allocated", "kernel-receives"))
+    report.guarded("TensorMethod.__call__ output allocation", tensor_method.run, report, ("output-allocated", "kernel-receives", "result-comes-from-the-kernel"))
     import fragments
 
     report.guarded("BucketOutput fragment triples", fragments.run_bucket, report, 4 if tier == "quick" else 5)
